@@ -338,8 +338,21 @@ def check_alias(ctx):
                 else:
                     flat = np.concatenate(rows)
                     L = [len(r) for r in rows]
-                    A = ra.RaggedArray(flat, lengths=L if how == 'flat_list' else np.array(L))
+                    Larr = np.array(L)
+                    A = ra.RaggedArray(flat, lengths=L if how == 'flat_list' else Larr)
                     bufs = [flat]
+                    if how == 'flat':
+                        # the caller's lengths array is caller data too
+                        B = A * 2
+                        if np.shares_memory(np.asarray(A.lengths), Larr):
+                            ctx.violation('construct:aliases_caller_lengths', case, 'lengths attribute shares memory with the caller array')
+                        Larr[:] = Larr[::-1] + 1
+                        for name, obj, want in (('array', A, rows), ('operator result', B, [r * 2 for r in rows])):
+                            if list(obj.lengths) != L or [np.asarray(r).tolist() for r in obj] != [w.tolist() for w in want] or \
+                                    any(obj[i, j] != want[i][j] for i in range(len(L)) for j in range(L[i])):
+                                ctx.violation('construct:aliases_caller_lengths', case,
+                                              'overwriting the caller lengths array changed the %s: lengths %r (want %r)' % (name, list(obj.lengths), L))
+                                break
                 if any(np.shares_memory(b, A._data) for b in bufs):
                     ctx.violation('construct:aliases_caller:%s' % how, case, 'copy-constructed array shares memory with the caller data')
                 for b in bufs:
